@@ -439,7 +439,7 @@ func findClade(rt *rapid.T, t *ref.Tree) int {
 var findWords = []string{"Taxon", "Genus", "sapiens", "sp\\.", "virus", "^X", "[0-9]+$", "^unclassified", "1", "Candidatus|Chlorella", "no such name"}
 
 func genFindCase(rt *rapid.T) (findCase, gen.TreeInfo) {
-	n := gen.Len(rt, "n", 1, evid.Pick(300, 3000), 2, 3, 30, 31)
+	n := gen.Len(rt, "n", 1, evid.Pick(300, 1000), 2, 3, 30, 31) // -P on a chain prints n*n/2 names
 	shape := rapid.SampledFrom(gen.TreeShapes).Draw(rt, "shape")
 	tr, info := gen.Tree(rt, "tree", n, shape, rapid.IntRange(0, min(20, n/2+2)).Draw(rt, "n_alias"), 3)
 	c := findCase{Tree: tr}
